@@ -294,6 +294,79 @@ func init() {
 		return res
 	})
 
+	// ----- time: time.Time is abstracted to {wall:0, ext: nanoseconds, loc:nil}; Now() is an arbitrary
+	// non-decreasing clock with 0 < now < 2^62 -----
+	mkTime := func(ns *smt.Term) Value { return &StructV{F: []Value{smt.BVC(64, 0), ns, PtrV{}}} }
+	tns := func(v Value) *smt.Term { return v.(*StructV).F[1].(*smt.Term) }
+	reg("time.Now", func(m *M, fn *ssa.Function, a []Value, r ssa.Value) Value {
+		occ := m.st.bumpOcc("time.Now")
+		v := smt.Var(fmt.Sprintf("now_%d", occ), smt.BV(64))
+		m.st.Nondets = append(m.st.Nondets, NondetRec{Key: fmt.Sprintf("time.Now#%d", occ), Kind: "clock", T: v})
+		lo := smt.BVC(64, 1)
+		if m.st.ClockLast != nil {
+			lo = m.st.ClockLast
+		}
+		m.st.PC = append(m.st.PC, smt.BVSle(lo, v), smt.BVSlt(v, smt.BVC(64, 1<<62)))
+		m.st.ClockLast = v
+		m.ex.noteAssumption("time.Now() is an arbitrary non-decreasing clock (ns since an arbitrary origin, 0 < now < 2^62); time.Time is abstracted to a nanosecond count (no monotonic/wall split, no locations)")
+		return mkTime(v)
+	})
+	reg("(time.Time).Add", func(m *M, fn *ssa.Function, a []Value, r ssa.Value) Value {
+		return mkTime(smt.BVAdd(tns(a[0]), tv(a[1])))
+	})
+	reg("(time.Time).Sub", func(m *M, fn *ssa.Function, a []Value, r ssa.Value) Value {
+		return smt.BVSub(tns(a[0]), tns(a[1]))
+	})
+	reg("time.Since", func(m *M, fn *ssa.Function, a []Value, r ssa.Value) Value {
+		now := intrinsics["time.Now"](m, fn, nil, nil)
+		return smt.BVSub(tns(now), tns(a[0]))
+	})
+	reg("time.Until", func(m *M, fn *ssa.Function, a []Value, r ssa.Value) Value {
+		now := intrinsics["time.Now"](m, fn, nil, nil)
+		return smt.BVSub(tns(a[0]), tns(now))
+	})
+	reg("(time.Time).After", func(m *M, fn *ssa.Function, a []Value, r ssa.Value) Value {
+		return smt.BVSlt(tns(a[1]), tns(a[0]))
+	})
+	reg("(time.Time).Before", func(m *M, fn *ssa.Function, a []Value, r ssa.Value) Value {
+		return smt.BVSlt(tns(a[0]), tns(a[1]))
+	})
+	reg("(time.Time).Equal", func(m *M, fn *ssa.Function, a []Value, r ssa.Value) Value {
+		return smt.Eq(tns(a[0]), tns(a[1]))
+	})
+	reg("(time.Time).IsZero", func(m *M, fn *ssa.Function, a []Value, r ssa.Value) Value {
+		return smt.Eq(tns(a[0]), smt.BVC(64, 0))
+	})
+	reg("(time.Time).UnixNano", func(m *M, fn *ssa.Function, a []Value, r ssa.Value) Value { return tns(a[0]) })
+	reg("(time.Time).Unix", func(m *M, fn *ssa.Function, a []Value, r ssa.Value) Value {
+		return smt.BVSDiv(tns(a[0]), smt.BVC(64, 1000000000))
+	})
+	reg("time.Sleep", func(m *M, fn *ssa.Function, a []Value, r ssa.Value) Value {
+		// advance the clock by at least d
+		if m.st.ClockLast != nil {
+			m.st.ClockLast = smt.BVAdd(m.st.ClockLast, tv(a[0]))
+		}
+		return nil
+	})
+
+	reg("math/rand.Intn|math/rand.Int63n|math/rand.Int31n", func(m *M, fn *ssa.Function, a []Value, r ssa.Value) Value {
+		n := tv(a[0])
+		w := n.Sort.W
+		if !m.Decide(smt.BVSlt(smt.BVC(w, 0), n)) {
+			panic(execPanic{msg: "invalid argument to Intn"})
+		}
+		occ := m.st.bumpOcc("rand.Intn")
+		v := smt.Var(fmt.Sprintf("rand_%d", occ), smt.BV(w))
+		m.st.PC = append(m.st.PC, smt.BVSle(smt.BVC(w, 0), v), smt.BVSlt(v, n))
+		m.ex.noteAssumption("math/rand values are arbitrary within their documented range")
+		return v
+	})
+	reg("math/rand.Float64", func(m *M, fn *ssa.Function, a []Value, r ssa.Value) Value {
+		v := m.freshReal("rand")
+		m.st.PC = append(m.st.PC, smt.RGe(v, smt.RealF(0)), smt.RLt(v, smt.RealF(1)))
+		return v
+	})
+
 	// ----- misc no-ops -----
 	reg("runtime.Gosched|runtime.KeepAlive|runtime.SetFinalizer|runtime/debug.PrintStack", nop)
 	reg("os.Getenv", func(m *M, fn *ssa.Function, a []Value, r ssa.Value) Value {
